@@ -15,7 +15,7 @@ PROP = dict(
 )
 META = dict(
     text=("Lean theorems over arbitrary finite schedules of any number of transactions: a transaction's reads are its start snapshot plus its own writes whatever others do (snapshot stability by induction over steps), "
-          "writes are invisible until commit and installed at one timestamp, discarded and conflicting transactions leave no trace, and of two transactions that read and write a common key from overlapping snapshots the second to commit conflicts, forever; a read-write transaction that commits finds every key it read unchanged at its commit point (its reads are current there: commit order is a serial order), a read-only transaction always commits. "
+          "writes are invisible until commit and installed at one timestamp, discarded and conflicting transactions leave no trace, and of two transactions that read and write a common key from overlapping snapshots the second to commit conflicts, forever; a read-write transaction that commits finds every key it read unchanged at its commit point (its reads are current there: commit order is a serial order), a read-only transaction always commits; only a successful commit changes the committed versions, so any schedule without one leaves no trace. "
           "Tied to /repo by replaying generated schedules on the real Badger store (validating the commit rule) and on explicit DefraDB transactions at document level against the compiled model."),
     design_ref="DESIGN.md section 8, C06",
     note="Trusted: Lean kernel; harness/txn; the commit rule of the storage engine is an assumption validated by the KV-level stream, not proved. The corekv memory store is not covered (its iterators ignore the snapshot; a dependency behaviour).",
